@@ -7,5 +7,5 @@ for f in sorted(glob.glob('/verif/seeded/%s-*/meta.json'%pid)):
     except Exception: pass
 txt=subprocess.run(['python3','/verif/tools/prompt2.py',pid,n],capture_output=True,text=True).stdout
 txt=txt.replace("/tmp/mut/%sr2"%pid,"/tmp/mut/%sr%s"%(pid,rnd)).replace("/tmp/mut/out2/","/tmp/mut/out%s/"%rnd)
-txt=txt.replace("This is a SECOND ROUND.","This is ROUND %s. The following changes were already produced for this property in earlier rounds -- do NOT repeat them or close variants of them (in particular: no new size threshold on the same container, no new fast path keyed to one value class already used below, no `nth`-style iterator override, no cache that goes stale; and, used for OTHER properties already: no change to an `impl Clone`, no "only one of two aliased tables is updated by a setter", no sentinel value (`!0`, the <invalid> file placeholder) colliding with input, no pointer-equality shortcut, no BOM stripping, no early return keyed on debug ids, no short `write` instead of `write_all`, no case-insensitive or byte-prefix comparison of path components):\n"%rnd+"\n".join(prev)+"\n\nLook for a genuinely different mechanism: an interaction between two public API calls, an error path, an ordering assumption, a unit confusion (bytes / chars / UTF-16 units, 0- vs 1-based, line vs column), an aliasing of two tables, a default that differs between two construction routes, a comparison that is not transitive, a trait impl (Clone, PartialEq, Ord, Hash, Display, Debug, Default, From) that disagrees with the data.\n\nGeneral remark on earlier rounds:")
+txt=txt.replace("This is a SECOND ROUND.","This is ROUND %s. The following changes were already produced for this property in earlier rounds -- do NOT repeat them or close variants of them (in particular: no new size threshold on the same container, no new fast path keyed to one value class already used below, no `nth`-style iterator override, no cache that goes stale; and, used for OTHER properties already: no change to an `impl Clone`, no 'only one of two aliased tables is updated by a setter', no sentinel value (`!0`, the <invalid> file placeholder) colliding with input, no pointer-equality shortcut, no BOM stripping, no early return keyed on debug ids, no short `write` instead of `write_all`, no case-insensitive or byte-prefix comparison of path components):\n"%rnd+"\n".join(prev)+"\n\nLook for a genuinely different mechanism: an interaction between two public API calls, an error path, an ordering assumption, a unit confusion (bytes / chars / UTF-16 units, 0- vs 1-based, line vs column), an aliasing of two tables, a default that differs between two construction routes, a comparison that is not transitive, a trait impl (Clone, PartialEq, Ord, Hash, Display, Debug, Default, From) that disagrees with the data.\n\nGeneral remark on earlier rounds:")
 print(txt)
